@@ -22,18 +22,27 @@ func TestMain(m *testing.M) {
 	logging.SetDefaultHandler(slog.DiscardHandler)
 	stats.Describe("exploration",
 		"A case is a schedule run against a fresh bus inside a synctest bubble; the bus is built either plain, eventbus.NewBus(), or with a metrics tracer, "+
-			"eventbus.NewBus(eventbus.WithMetricsTracer(t)) with t a tracer that only counts its calls (half of the generated schedules each; both enumerations below run "+
-			"every shape on both): the statement speaks of the event bus however it was constructed, so every oracle applies to both alike and the tracer's "+
+			"eventbus.NewBus(eventbus.WithMetricsTracer(t)) with t a tracer that only counts its calls or t the library's own Prometheus tracer, "+
+			"eventbus.NewMetricsTracer(eventbus.WithRegisterer(<fresh registry>)), the one libp2p.New installs (plain: half of the generated schedules; the others with either kind of tracer, label bus:metrics-tracer:library-prometheus-tracer counts the second kind; "+
+			"both enumerations below run every shape plain and with the counting tracer): the statement speaks of the event bus however it was constructed, so every oracle applies to both alike and the tracer's "+
 			"counts are used for coverage labels only (bus:metrics-tracer:events-received-by:<kind>/buf:<n> = a subscription of that kind and BufSize on a bus with a "+
 			"tracer received events). 3 event types (each stateful or not), 1-4 emitters "+
 			"(each opened with or without eventbus.Stateful: by default as its type says, but where a type has several emitters each of them may disagree - "+
 			"stateful then plain, plain then stateful, two against one, the first one closed before the next is opened; emitters are opened before step 0 in "+
 			"generated number and order or by a step in the middle of the history, after events of the type; TestStatefulEmittersDisagree concentrates on "+
 			"2-4 emitters of mostly one type, half of them disagreeing, with Emitter creation / Close a quarter of all actions), "+
-			"1-5 subscriptions (single type / several types / wildcard; BufSize 0,1,2,16 or default; reading eagerly, or only when granted N reads / "+
-			"resumed), 1-3 emit goroutines, and steps at increasing virtual instants; all actions of a step (Emit bursts, Subscribe, "+
+			"1-5 subscriptions (single type / several types / wildcard; BufSize 0,1,2,16 or default; created with eventbus.Name or without - no subscription of the case named, each named or not on its own "+
+			"with names from a window of a pool of 32768 so that most are new to the process and two subscriptions sometimes share one, or one explicit name for all; a name is a metrics label and changes no rule; "+
+			"reading eagerly, or only when granted N reads / resumed), 1-3 emit goroutines, and steps at increasing virtual instants; all actions of a step (Emit bursts, Subscribe, "+
 			"Subscription.Close (also twice), resume/grant reads, Emitter creation/Close (also twice), calls the bus has to refuse, read-only queries) start together and race "+
-			"for real. Read-only queries (about 1 action in 10, and in a quarter of the final rounds): Bus.GetAllEventTypes, alone or followed by Name / Out of a generated subscription that exists by then; "+
+			"for real (in part of the TestBusConcurrentRaces and most of the TestConcurrentEmitsMetricsBus schedules, label steps-released-by-non-yielding-barrier, the actions of a step are released by a second, non-yielding barrier, each holding a processor "+
+			"of its own at that instant). TestConcurrentEmitsMetricsBus concentrates on emit goroutines that run at the same time on a bus with the Prometheus tracer: always that tracer, 2-3 emit goroutines, 2-4 emitters, "+
+			"3-8 subscriptions (half wildcard, mostly with names of their own), 60 % of the actions Emit bursts, Subscribe racing with them (labels prometheus-tracer:concurrent-emits...: two Emit calls of different "+
+			"goroutines overlapped by their call stamps; :wildcard-subscriber / :different-types say why the bus does not serialise them). TestManyGoroutinesEmitTogether is the plain fan-in shape without the schedule engine: "+
+			"2-8 goroutines, each with an emitter of its own (one type for all or spread over the three), emit bursts of 1-5 released together, in 1-3 rounds; each round has 1-8 fresh eagerly read subscriptions "+
+			"(wildcard / one type / several; BufSize 0,1,2,16 or default; names as above); bus with the Prometheus tracer (most cases) / with the counting tracer / plain (labels bus:...); oracle = quiescent completeness: once every Emit of the round has "+
+			"returned and the bubble is quiescent every subscription of the round has read exactly the round's events of its types, each once, per emitter in order, nothing else; NON-TRIVIAL there = some subscription "+
+			"hears two or more of the goroutines; DISTINCT = distinct case with names abstracted to their sharing pattern. The tracer's own records are never judged. Read-only queries (about 1 action in 10, and in a quarter of the final rounds): Bus.GetAllEventTypes, alone or followed by Name / Out of a generated subscription that exists by then; "+
 			"they are scheduled at any instant, in particular next to Subscribe / Close / Emitter calls while an Emit of an earlier step is stalled on a slow subscriber and stays stalled past the step "+
 			"(labels query:while-emit-blocked...; TestBlockedEmitEnumerated makes them during every enumerated stall, alone, next to the Close of an unrelated type's only subscription and next to "+
 			"Subscribe + Emitter of an unrelated type); their answers are not judged (the statement says nothing about them), a query changes nothing, so every oracle below applies to the rest of the "+
@@ -54,6 +63,7 @@ func TestMain(m *testing.M) {
 			"stateful type that already had an event overlapped an Emit of that type, or the retained event was demanded from and checked on a subscriber "+
 			"to a type whose emitters disagreed on Stateful at that point, or a refused Subscribe named well-formed types before its offending "+
 			"element and more events of such a type than the buffer it asked for were emitted afterwards. DISTINCT = distinct (specification, executed step trace).",
+		"a data race or unsynchronised map inside a delivery has no deterministic symptom: the quick tier sees it only when the Go runtime's concurrent-map check ends the process (reported as process-crash) or the events come out wrong; the thorough tier re-runs TestBusConcurrentRaces, TestStatefulReplay, TestConcurrentEmitsMetricsBus and TestManyGoroutinesEmitTogether under the race detector",
 		"interleavings inside one virtual instant come from the Go scheduler (plus generated runtime.Gosched counts); they are sampled, not enumerated",
 		"actions that could leave a goroutine waiting on a bus mutex behind an emit stalled past the end of the step are not scheduled (a mutex wait is invisible to synctest); a stall is always resolvable within a step by resume/close",
 		"one goroutine at a time uses a given emitter for a burst only when no other burst of it is unfinished on the same emit goroutine; order is asserted between events of one emitter whose Emit calls did not overlap",
@@ -81,10 +91,17 @@ type profile struct {
 	bufs        []int
 	bursts      []int
 	preAllSubs  bool
-	disagreePct int // per emitter of a type that has several: chance that its Stateful option differs from the type's
-	sameTypePct int // per emitter after the first: chance that it gets the type of the first (0 = one in three)
-	minEms      int // at least this many emitters (0 = 1)
-	lateEmsPct  int // chance that only the first emitter exists before step 0 (the others are opened by steps of the history)
+	disagreePct int   // per emitter of a type that has several: chance that its Stateful option differs from the type's
+	sameTypePct int   // per emitter after the first: chance that it gets the type of the first (0 = one in three)
+	minEms      int   // at least this many emitters (0 = 1)
+	lateEmsPct  int   // chance that only the first emitter exists before step 0 (the others are opened by steps of the history)
+	realPct     int   // of the schedules on a bus with a metrics tracer: share whose tracer is the library's Prometheus tracer (0 = 50; 100 = every schedule has one)
+	minWorkers  int   // at least this many emit goroutines (0 = 1)
+	tightPct    int   // share of the schedules whose steps are released by the non-yielding barrier (scenario.Tight)
+	minSubs     int   // at least this many subscriptions (0 = 1)
+	maxSubs     int   // at most this many subscriptions (0 = 5)
+	subKinds    []int // weights single / multi / wild (nil = 45 25 30)
+	nameModes   []int // weights: each subscription named or not on its own / none named / all share one name (nil = 50 35 15)
 }
 
 var kindNames = []string{"emit", "sub", "closeSub", "resume", "grant", "closeEm", "newEm", "bad", "query"}
@@ -93,7 +110,7 @@ var (
 	profGeneral = profile{name: "general", maxSteps: 6, minActs: 1, maxActs: 5, gaps: []int{0, 1, 1, 600, 1100},
 		kinds: []int{42, 11, 10, 7, 10, 7, 6, 12, 9}, badPct: 40, eagerPct: 45, bufs: []int{0, 0, 1, 1, 2, 2, 16, -1}, bursts: []int{1, 1, 2, 3, 3, 5, 18}, disagreePct: 15}
 	profRaces = profile{name: "races", maxSteps: 3, minActs: 3, maxActs: 9, gaps: []int{0, 0, 1},
-		kinds: []int{40, 18, 16, 4, 4, 9, 9, 14, 10}, badPct: 40, eagerPct: 75, bufs: []int{0, 1, 2, 16, 16, -1}, bursts: []int{1, 2, 3, 4, 6}, disagreePct: 15}
+		kinds: []int{40, 18, 16, 4, 4, 9, 9, 14, 10}, badPct: 40, eagerPct: 75, bufs: []int{0, 1, 2, 16, 16, -1}, bursts: []int{1, 2, 3, 4, 6}, disagreePct: 15, tightPct: 25}
 	profStateful = profile{name: "stateful", allStateful: true, maxSteps: 5, minActs: 1, maxActs: 5, gaps: []int{0, 1, 1, 1100},
 		kinds: []int{45, 22, 8, 6, 8, 5, 6, 12, 8}, badPct: 40, eagerPct: 60, bufs: []int{0, 1, 2, 2, 16, -1}, bursts: []int{1, 1, 2, 3}, disagreePct: 15}
 	// several emitters of (mostly) one type that disagree on Stateful, opened and closed all
@@ -101,6 +118,12 @@ var (
 	profEmitters = profile{name: "emitters", maxSteps: 7, minActs: 1, maxActs: 4, gaps: []int{0, 1, 1, 1, 600},
 		kinds: []int{32, 20, 6, 4, 5, 12, 17, 4, 6}, badPct: 15, eagerPct: 70, bufs: []int{0, 1, 2, 16, 16, -1}, bursts: []int{1, 1, 2, 3},
 		disagreePct: 50, sameTypePct: 75, minEms: 2, lateEmsPct: 50}
+	// emit goroutines that really run at the same time on a bus with the library's Prometheus
+	// tracer: 2-3 emit goroutines, 2-4 emitters, 3-8 subscriptions (half of them wildcard) with
+	// names of their own, bursts started together at one instant, subscriptions joining meanwhile
+	profMetrics = profile{name: "metrics", maxSteps: 3, minActs: 3, maxActs: 7, gaps: []int{0, 0, 1},
+		kinds: []int{60, 16, 6, 3, 3, 3, 4, 2, 3}, badPct: 10, eagerPct: 85, bufs: []int{1, 2, 16, 16, 16, -1}, bursts: []int{1, 2, 3, 4, 6},
+		disagreePct: 15, minEms: 2, realPct: 100, minWorkers: 2, tightPct: 70, minSubs: 3, maxSubs: 8, subKinds: []int{25, 25, 50}, nameModes: []int{80, 10, 10}}
 )
 
 func weighted(rt *rapid.T, label string, w []int) int {
@@ -178,12 +201,21 @@ func genBad(rt *rapid.T, p profile, live []int) badSpec {
 
 func genScenario(rt *rapid.T, p profile) *scenario {
 	// how the bus is built: plain, or with a (counting) metrics tracer
-	sc := &scenario{Tracer: rapid.Bool().Draw(rt, "metricsTracer")}
+	sc := &scenario{Tracer: p.realPct == 100 || rapid.Bool().Draw(rt, "metricsTracer")}
+	if sc.Tracer {
+		// the counting tracer of the harness, or the library's own Prometheus tracer
+		pct := p.realPct
+		if pct == 0 {
+			pct = 50
+		}
+		sc.RealTracer = rapid.IntRange(0, 99).Draw(rt, "realTracer") < pct
+	}
+	sc.Tight = p.tightPct > 0 && rapid.IntRange(0, 99).Draw(rt, "tightStart") < p.tightPct
 	var typeStateful [nTypes]bool
 	for t := 0; t < nTypes; t++ {
 		typeStateful[t] = p.allStateful || rapid.Bool().Draw(rt, "stateful")
 	}
-	sc.Workers = rapid.IntRange(1, 3).Draw(rt, "workers")
+	sc.Workers = rapid.IntRange(max(1, p.minWorkers), 3).Draw(rt, "workers")
 	nEm := rapid.IntRange(max(1, p.minEms), 4).Draw(rt, "emitters")
 	usedType := [nTypes]bool{}
 	emsOfType := [nTypes]int{}
@@ -226,10 +258,31 @@ func genScenario(rt *rapid.T, p profile) *scenario {
 			live = append(live, t)
 		}
 	}
-	nSub := rapid.IntRange(1, 5).Draw(rt, "subs")
+	nSub := rapid.IntRange(max(1, p.minSubs), max(5, p.maxSubs)).Draw(rt, "subs")
+	// Subscription names (eventbus.Name): none given (the bus then names every subscription of
+	// the case after the one calling line), each subscription named or not on its own (names
+	// from a window of a pool of 32768, so that most are new to the process and two
+	// subscriptions of a case sometimes share one), or one explicit name for all.
+	subKinds, nameModes := p.subKinds, p.nameModes
+	if subKinds == nil {
+		subKinds = []int{45, 25, 30}
+	}
+	if nameModes == nil {
+		nameModes = []int{50, 35, 15}
+	}
+	nameMode := weighted(rt, "nameMode", nameModes)
+	nameBase := 16 * rapid.IntRange(0, 2047).Draw(rt, "nameBase")
 	for i := 0; i < nSub; i++ {
 		sp := subSpec{Buf: rapid.SampledFrom(p.bufs).Draw(rt, "buf"), Eager: rapid.IntRange(0, 99).Draw(rt, "eager") < p.eagerPct}
-		switch weighted(rt, "subKind", []int{45, 25, 30}) {
+		switch nameMode {
+		case 0:
+			if k := rapid.IntRange(-1, max(7, 2*nSub)).Draw(rt, "name"); k >= 0 {
+				sp.Name = fmt.Sprintf("c15-sub-%d", nameBase+k)
+			}
+		case 2:
+			sp.Name = fmt.Sprintf("c15-sub-%d", nameBase)
+		}
+		switch weighted(rt, "subKind", subKinds) {
 		case 0:
 			sp.Kind = "single"
 			t := rapid.SampledFrom(live).Draw(rt, "subType")
@@ -381,9 +434,14 @@ func genScenario(rt *rapid.T, p profile) *scenario {
 
 func specString(sc *scenario) string {
 	var b strings.Builder
-	fmt.Fprintf(&b, "tracer=%v st=%v/%v w=%d em=%v pre=%d/%d", sc.Tracer, sc.Stateful, sc.EmStateful, sc.Workers, sc.Ems, sc.PreEms, sc.PreSubs)
+	fmt.Fprintf(&b, "tracer=%v/%v tight=%v st=%v/%v w=%d em=%v pre=%d/%d", sc.Tracer, sc.RealTracer, sc.Tight, sc.Stateful, sc.EmStateful, sc.Workers, sc.Ems, sc.PreEms, sc.PreSubs)
+	// names are abstracted to their pattern: 0 = option omitted, k = the k-th distinct name of the case
+	nameIdx := map[string]int{"": 0}
 	for _, s := range sc.Subs {
-		fmt.Fprintf(&b, " %s%v/%d/%v", s.Kind, s.Types, s.Buf, s.Eager)
+		if _, ok := nameIdx[s.Name]; !ok {
+			nameIdx[s.Name] = len(nameIdx)
+		}
+		fmt.Fprintf(&b, " %s%v/%d/%v/n%d", s.Kind, s.Types, s.Buf, s.Eager, nameIdx[s.Name])
 	}
 	for _, bad := range sc.Bad {
 		fmt.Fprintf(&b, " !%v", bad)
@@ -466,6 +524,15 @@ func TestBusSchedules(t *testing.T) { propSchedules(t, profGeneral, 22000, 90000
 func TestBusConcurrentRaces(t *testing.T) { propSchedules(t, profRaces, 18000, 750000) }
 
 // TestStatefulReplay: every type stateful, subscriptions arriving between and during emits.
+// Several goroutines emit at the same time - to wildcard subscribers, and on different event
+// types - on a bus that reports to the library's own Prometheus tracer, with named
+// subscriptions, most of them created before the first emit or racing with it: "Emit from
+// several emitters and goroutines" on the bus as libp2p.New builds it. Same oracles as
+// everywhere; a crash of the process (the runtime's fatal error on an unsynchronised map
+// inside a delivery cannot be recovered) is reported by the driver as process-crash, and the
+// thorough tier re-runs the test under the race detector.
+func TestConcurrentEmitsMetricsBus(t *testing.T) { propSchedules(t, profMetrics, 12000, 400000) }
+
 func TestStatefulReplay(t *testing.T) { propSchedules(t, profStateful, 9000, 350000) }
 
 // TestStatefulEmittersDisagree: two to four emitters, mostly of one type, half of which
